@@ -31,14 +31,15 @@ META_PART = (
     "exactly four finite bounds with min < max on both axes - refuted before the repair of Servo.__init__ in the project); the "
     "extracted model is run against the real class on exhaustive op pairs over a boundary alphabet from 11 seed states of 3 "
     "calibrations, a constructor table and seeded random histories, comparing outcome, return value, every attribute and "
-    "the level events per op. BINARY64 (Host/ServoFloat.v: the five rounded operations of each map, fl53): the bound clauses are exact "
-    "inequalities - C19_servo_binary64_pulse_bound_refuted / _angle_bound_refuted (witnesses: an in-range write leaves the pulse / angle one ulp "
-    "above its bound for unlucky bounds, finding F-C19-servo-bound-ulp), C19_servo_binary64_bounds_reachable_partial / _step_partial / "
-    "_map_within_bounds_partial (guard servo_top_ok = the image of the top of each range is not above the bound: angle and pulse stay "
-    "within their bounds EXACTLY after every history), C19_binary64_rounding_monotone / _idempotent, C19_servo_binary64_guard_is_executable, "
+    "the level events per op. BINARY64 (Host/ServoFloat.v: the five rounded operations of each map, fl53, then the clamp to the configured bounds "
+    "the class applies since the repair of F-C19-servo-bound-ulp): the bound clauses are exact inequalities - C19_servo_binary64_bounds_reachable / "
+    "_bounds_run / _bounds_step / _map_within_bounds (angle and pulse within their bounds EXACTLY after every history from every accepted "
+    "constructor call: no guard), C19_servo_binary64_pulse_bound_repaired / _angle_bound_repaired (the old witnesses end ON the bound; the raw "
+    "interpolation is an ulp above it - the clamp is what keeps the clause), C19_servo_binary64_clamp_idle_inside_old_guard / "
+    "_raw_map_within_bounds_partial (where the old guard top_ok holds the clamp never bites), C19_binary64_rounding_monotone / _idempotent, "
     "C19_servo_binary64_write_roundtrip / _write_us_roundtrip (the commanded coordinate is stored as given), _failed_call_atomic, "
     "_config_constant; the extracted binary64 model is compared BIT FOR BIT (no tolerance) with the real class on the pairs / random / "
-    "random-decimal streams and on one-decimal calibrations inside the guard written at both ends, one ulp inside them and at decimal interior points."
+    "random-decimal streams and on one-decimal calibrations on both sides of the old guard written at both ends, one ulp inside them and at decimal interior points."
 )
 
 H = Fr(1, 2)
@@ -75,8 +76,7 @@ def oracle(ctx, st, case, r, safety_only=False):
             ctx.fail(f"{at}: read()/read_us() is not a finite float", label, "floats", get, key="servo-nonfloat")
             return False
         # "angle and pulse stay within their bounds" are EXACT inequalities on the binary64 values the object holds
-        # (no tolerance; one ulp above max is outside).  Generated calibrations are inside the guard top_exact
-        # (finding F-C19-servo-bound-ulp covers the others)
+        # (no tolerance; one ulp above max is outside) - for every calibration: F-C19-servo-bound-ulp is repaired, no guard
         if not (mina <= a <= maxa):
             ctx.fail(f"{at}: angle outside its configured bounds", label, f"{float(mina)!r} <= angle <= {float(maxa)!r} (exact)", repr(float(a)), key="servo-angle-bounds")
             return False
@@ -197,13 +197,15 @@ def random_calibration(rng):
 # calibrations whose bounds are binary64 values that are NOT short dyadic numbers (the exact value of the float is
 # sent to the model; the float arithmetic of the two maps then differs from the rational one in the last ulp)
 DECIMAL_CALIBS = [(Fr(0.1), Fr(179.9), Fr(544.5), Fr(2400.3)), (Fr(-33.3), Fr(66.6), Fr(1 / 3), Fr(1000.7)),
-                  (Fr(0), Fr(180), Fr(0.7), Fr(0.9))]
+                  (Fr(0), Fr(180), Fr(0.7), Fr(0.9)),
+                  # outside the old guard of the repaired F-C19-servo-bound-ulp: the clamp bites at the top of the range
+                  (Fr(-90.7), Fr(90.1), Fr(543.9), Fr(2000.2)), (Fr(45.3), Fr(179.9), Fr(543.9), Fr(1999.3))]
 
 
 def top_exact(lo, hi):
-    """executable guard of finding F-C19-servo-bound-ulp (Host/ServoFloat.v top_ok, the guard of
-    C19_servo_binary64_bounds_reachable_partial): in binary64, lo + (hi - lo) <= hi - the image of the top of the range is
-    not above the bound (it is the bound itself, or an ulp below it)"""
+    """the OLD guard of the repaired finding F-C19-servo-bound-ulp (Host/ServoFloat.v top_ok): in binary64, lo + (hi - lo) <= hi -
+    the raw image of the top of the range is not above the bound.  Now only a classifier: calibrations on both sides are generated
+    (outside it the clamp of _angle_to_pulse / _pulse_to_angle must bite)"""
     lo, hi = float(lo), float(hi)
     return lo + (hi - lo) <= hi
 
@@ -213,22 +215,51 @@ def in_guard(bounds):
     return top_exact(mina, maxa) and top_exact(minp, maxp)
 
 
-DECIMAL_CALIBS = [c for c in DECIMAL_CALIBS if in_guard(c)]
+# calibrations OUTSIDE the old guard (each reproduced the finding before the repair): (min_angle, max_angle, min_pulse, max_pulse)
+OUTSIDE_OLD_GUARD = [(0.0, 180.0, 543.9, 2000.2), (-90.7, 90.1, 544.0, 2400.0), (-45.3, 0.1, 543.9, 1999.3), (45.3, 179.9, 544.0, 2400.0),
+                     (-60.1, 120.3, -60.1, 2000.2), (0.3, 0.9, 544.0, 2400.0), (-0.1, 0.3, -0.1, 0.2), (-22.5, 120.3, 543.9, 2000.2),
+                     (-90.7, 180.1, -90.7, 500.5), (-60.1, 45.3, 544.0, 2400.0)]
 
 # streams whose cases are ALSO run through the binary64 model (Host/ServoFloat.v: sstep_fl) and compared EXACTLY
-FLOAT_STREAMS = {"float-bounds", "random-decimal", "random", "pairs"}
+FLOAT_STREAMS = {"float-bounds", "float-bounds-clamp-bites", "random-decimal", "random", "pairs"}
 
 
 def float_bound_cases(ctx):
-    """Calibrations with one-decimal (non-dyadic) bounds inside the guard; writes at both ends of each axis, one ulp inside
-    the ends, at decimal interior points: where the five rounded operations of each map matter for the exact bound clauses."""
+    """Calibrations with one-decimal (non-dyadic) bounds - on BOTH sides of the old guard of F-C19-servo-bound-ulp; writes at both
+    ends of each axis, one ulp inside the ends, at decimal interior points: where the five rounded operations of each map and the
+    clamp after them matter for the exact bound clauses."""
     import math
     rng = ctx.rng
     thorough = ctx.tier == "thorough"
-    out, n_out = [], 0
-    want = 1200 if thorough else 150
+    out = []
+    want_in, want_out = (1200, 600) if thorough else (150, 120)
+    n_in = n_out = 0
+
+    def emit(b, stream):
+        mina, maxa, minp, maxp = (float(x) for x in b)
+        ctor = [ABSENT, b[0], b[1], b[2], b[3]]
+        ends = [("write", b[1]), ("write", b[0]), ("write_us", b[3]), ("write_us", b[2]),
+                ("write", Fr(math.nextafter(maxa, mina))), ("write_us", Fr(math.nextafter(maxp, minp))),
+                ("write", Fr(math.nextafter(mina, maxa))), ("write_us", Fr(math.nextafter(minp, maxp)))]
+        out.append((stream, ("servo", ctor, ends + [("read",), ("read_us",)])))
+        out.append((stream, ("servo", ctor, [("write", b[1]), ("read_us",)])))
+        out.append((stream, ("servo", ctor, [("write_us", b[3]), ("read",)])))
+        ops = []
+        for _ in range(8):
+            if rng.random() < 0.5:
+                ops.append(("write", Fr(round(rng.uniform(mina, maxa), 1)) if rng.random() < 0.7 else Fr(rng.uniform(mina, maxa))))
+            else:
+                ops.append(("write_us", Fr(round(rng.uniform(minp, maxp), 1)) if rng.random() < 0.7 else Fr(rng.uniform(minp, maxp))))
+        ops = [o for o in ops if (b[0] <= o[1] <= b[1] if o[0] == "write" else b[2] <= o[1] <= b[3])] + [("write", b[1]), ("write_us", b[3])]
+        out.append((stream, ("servo", ctor, ops)))
+
+    for c in OUTSIDE_OLD_GUARD:
+        b = tuple(Fr(x) for x in c)
+        if not in_guard(b):
+            n_out += 1
+            emit(b, "float-bounds-clamp-bites")
     tries = 0
-    while len(out) < want * 2 and tries < 100000:
+    while (n_in < want_in or n_out < want_out) and tries < 200000:
         tries += 1
         mina = round(rng.uniform(-180, 180), rng.choice([0, 1, 1, 2]))
         maxa = round(mina + rng.choice([0.1, 1, 45.5, 90, 180, 270.3, rng.uniform(0.5, 360)]), rng.choice([0, 1, 1, 2]))
@@ -237,22 +268,15 @@ def float_bound_cases(ctx):
         if not (mina < maxa and minp < maxp):
             continue
         b = (Fr(mina), Fr(maxa), Fr(minp), Fr(maxp))
-        if not in_guard(b):
-            n_out += 1                   # outside the guard: covered by the listed finding, never generated
-            continue
-        ctor = [ABSENT, b[0], b[1], b[2], b[3]]
-        ends = [("write", b[1]), ("write", b[0]), ("write_us", b[3]), ("write_us", b[2]),
-                ("write", Fr(math.nextafter(maxa, mina))), ("write_us", Fr(math.nextafter(maxp, minp))),
-                ("write", Fr(math.nextafter(mina, maxa))), ("write_us", Fr(math.nextafter(minp, maxp)))]
-        out.append(("float-bounds", ("servo", ctor, ends + [("read",), ("read_us",)])))
-        ops = []
-        for _ in range(8):
-            if rng.random() < 0.5:
-                ops.append(("write", Fr(round(rng.uniform(mina, maxa), 1)) if rng.random() < 0.7 else Fr(rng.uniform(mina, maxa))))
-            else:
-                ops.append(("write_us", Fr(round(rng.uniform(minp, maxp), 1)) if rng.random() < 0.7 else Fr(rng.uniform(minp, maxp))))
-        out.append(("float-bounds", ("servo", ctor, ops)))
-    ctx.coverage.setdefault("servo_calibrations_outside_the_guard_not_generated", n_out)
+        if in_guard(b):
+            if n_in < want_in:
+                n_in += 1
+                emit(b, "float-bounds")
+        elif n_out < want_out:
+            n_out += 1
+            emit(b, "float-bounds-clamp-bites")
+    ctx.coverage["servo_calibrations_where_the_clamp_bites_generated"] = n_out
+    ctx.coverage["servo_calibrations_inside_the_old_guard_generated"] = n_in
     return out
 
 
@@ -479,12 +503,12 @@ def run_unit(ctx: C.Ctx) -> dict:
                     "50%" if ctx.tier == "thorough" else "30%")),
         "samples": samples,
         "distribution": dist,
-        "guard": ("F-C19-servo-bound-ulp: generated calibrations satisfy, in binary64, min + (max - min) <= max on both axes (in_guard = Host/ServoFloat.v "
-                  "servo_top_ok, the guard of C19_servo_binary64_bounds_reachable_partial); calibrations outside it are counted "
-                  "(servo_calibrations_outside_the_guard_not_generated) and never generated - the witness of the finding is replayed on every run. "
-                  "F-C19-servo-nonfinite-bound is repaired (kind=fixed, excludes nothing, witness replayed first). Inside the guard the bound clauses and the "
-                  "write/read round trips are judged with EXACT comparisons after every call (no tolerance); only the clause 'angle and pulse correspond under "
-                  "the linear map' - two float computations of the same real quantity - is compared to 1e-9"),
+        "guard": ("none: no listed finding excludes anything. F-C19-servo-bound-ulp (pulse / angle one ulp above the bound for calibrations whose binary64 sum "
+                  "min + (max - min) exceeds max) and F-C19-servo-nonfinite-bound are repaired (kind=fixed): they suppress nothing, their witnesses are replayed "
+                  "FIRST on every run and a witness that fails again is a VIOLATION whose replay is that witness; calibrations on both sides of the old guard are "
+                  "generated (streams float-bounds / float-bounds-clamp-bites, counted in the coverage). The bound clauses and the write/read round trips are judged "
+                  "with EXACT comparisons after every call (no tolerance); only the clause 'angle and pulse correspond under the linear map' - two float "
+                  "computations of the same real quantity - is compared to 1e-9"),
         "unmodelled": [
             "binary64 overflow / subnormals: the binary64 model (fl53) has an unbounded exponent - it is IEEE-754 binary64 for bounds and arguments of magnitude 2^-1000 .. 2^1000, which is what is generated; the exact-rational model is still compared to 1e-9 on every stream",
             "IEEE specials (NaN, inf), -0.0, strings and ints beyond the float range as arguments of write/write_us: sent to the implementation only, oracle = invariant + atomicity of failing calls",
